@@ -68,6 +68,8 @@ type c18Case struct {
 	// SmallWin (client role): the handshake allows 65536-byte frames but a 10000-byte stream window, and the
 	// body is 100000 bytes: most of the upload is still waiting for credit when the SETTINGS frames arrive
 	SmallWin bool `json:"small_window_big_frames,omitempty"`
+	// BigTable (client role): the server's first SETTINGS advertises HEADER_TABLE_SIZE=8192
+	BigTable bool `json:"handshake_table_8192,omitempty"`
 }
 
 // peerLimits tracks what the peer has told the endpoint.
@@ -352,6 +354,9 @@ func c18Client(cs c18Case) (*fw.Violation, *harness.Client) {
 	if cs.SmallWin {
 		co.ServerSettings = []peer.Setting{{ID: 4, Val: 10000}, {ID: 5, Val: 65536}}
 	}
+	if cs.BigTable {
+		co.ServerSettings = append(co.ServerSettings, peer.Setting{ID: 1, Val: 8192})
+	}
 	h := harness.NewClient(co)
 	mk := func(rule, shape, detail string) *fw.Violation {
 		return &fw.Violation{Rule: rule, Shape: "client " + shape, Detail: detail + "\n    events: " + strings.Join(h.EventLog, " ; "), Replay: map[string]any{"family": "c18", "case": cs}}
@@ -381,6 +386,10 @@ func c18Client(cs c18Case) (*fw.Violation, *harness.Client) {
 		lim.frame = 65536
 	}
 	mirror := ref.NewTable()
+	if cs.BigTable {
+		lim.table = 8192
+		mirror.SettingsMax = 8192
+	}
 	pendingDip := -1
 	seen := 0
 	blocks := map[uint32]bool{}
@@ -768,6 +777,26 @@ func runC18(c *fw.Ctx) {
 		for pa := 0; pa < 5; pa++ {
 			for pb := pa; pb < 5; pb++ {
 				do(c18Case{Role: role, Settings: []int{raise, lower}, At: []int{pa, pb}, BigHdr: true, BigBody: true, Two: true})
+			}
+		}
+	}
+	// the handshake itself raises the table size; later frames lower it (to 0 too) and raise it again
+	for _, two := range []bool{false, true} {
+		npos := 3
+		if two {
+			npos = 5
+		}
+		for a := range c18Alphabet {
+			if !strings.Contains(c18Alphabet[a].Name, "table") {
+				continue
+			}
+			for pa := 0; pa < npos; pa++ {
+				do(c18Case{Role: "client", Settings: []int{a}, At: []int{pa}, Two: two, BigTable: true})
+				for b := range c18Alphabet {
+					if strings.Contains(c18Alphabet[b].Name, "table") && two {
+						do(c18Case{Role: "client", Settings: []int{a, b}, At: []int{pa, pa}, Two: two, BigTable: true})
+					}
+				}
 			}
 		}
 	}
